@@ -47,13 +47,16 @@ def is_private_model(name):
 
 
 def gen_shape(r, idx):
-    names = ["alpha", "beta", "gamma", "delta", "eps", "zeta", "eta", "theta", "iota", "kappa", "ping", "info", "value", "count", "__len__", "__getitem__", "run", "data"]
+    names = ["alpha", "beta", "gamma", "delta", "eps", "zeta", "eta", "theta", "iota", "kappa", "ping", "info", "value", "count", "__len__", "__getitem__", "run", "data",
+             "_hid", "_sec", "_priv"]        # private-named members: never served, however their class is exposed
     r.shuffle(names)
     members = []
     n = r.randrange(4, 11)
     for name in names[:n]:
         kind = r.choice(KINDS) if not name.startswith("__") else "method"
         m = {"name": name, "kind": kind, "where": r.choice(["base", "sub"]), "exposed": r.random() < 0.55, "oneway": r.random() < 0.3}
+        if name.startswith("_") and not name.startswith("__"):
+            m["exposed"] = False      # @expose on a private name is refused at decoration time; only class-level exposure can reach it
         if kind == "helper":
             m["helper_exposed"] = r.choice(["class", "member", "none"])
             m["helper_callable"] = r.random() < 0.5
@@ -68,12 +71,12 @@ def gen_shape(r, idx):
         if m["where"] == "base" and r.random() < 0.25 and not m["name"].startswith("__") and m["kind"] not in ("iattr", "helper"):
             o = dict(m, where="sub", exposed=r.random() < 0.4, kind=r.choice(["method", "prop_ro", "cattr", m["kind"]]) if m["kind"] != "helper" else "method")
             o.pop("helper_exposed", None)
-            if o["kind"] in ("cattr",):
+            if o["kind"] in ("cattr",) or (o["name"].startswith("_") and not o["name"].startswith("__")):
                 o["exposed"] = False
             members.append(o)
     # an instance attribute that holds a plain, never-exposed function under the name of a method its class defines (plug-in hooks assigned in
     # __init__ do this): the peer's name then denotes that unexposed function, whatever the class-level member's exposure is
-    meths = [m for m in members if m["kind"] == "method" and not m["name"].startswith("__")]
+    meths = [m for m in members if m["kind"] == "method" and not m["name"].startswith("__") and sum(1 for x in members if x["name"] == m["name"]) == 1]
     if meths and r.random() < 0.3:
         t = r.choice(meths)
         members.append({"name": t["name"], "kind": "ifunc", "where": "sub", "exposed": False, "oneway": False})
